@@ -351,3 +351,103 @@ Example ex_block_twice :
 Proof. vm_compute. reflexivity. Qed.
 Example ex_live : live ex_s0.
 Proof. discriminate. Qed.
+
+(* ---- the attributes object of a call ---------------------------------------------------------- *)
+(* __op__map_params only ever appends to the heap ... *)
+Lemma params_alloc_extends gs : forall h items h1,
+  params_alloc h gs = Ok (items, h1) -> exists ext, h1 = h ++ ext.
+Proof.
+  induction gs as [|[k g] r IH]; intros h items h1 H; simpl in H.
+  - inversion H; subst. exists []. rewrite app_nil_r. reflexivity.
+  - destruct g as [v|vs].
+    + destruct (params_alloc h r) as [[it h2]| | |] eqn:E;
+        destruct v; simpl in H; try discriminate; inversion H; subst; eapply IH; exact E.
+    + unfold rt_array in H.
+      destruct (existsb _ vs); [discriminate|]. simpl in H.
+      destruct (params_alloc (h ++ [OArr (map box vs)]) r) as [[it h2]| | |] eqn:E; simpl in H; try discriminate.
+      inversion H; subst. destruct (IH _ _ _ E) as [ext He]. exists (OArr (map box vs) :: ext).
+      rewrite He, <- app_assoc. reflexivity.
+Qed.
+
+(* ... and its result is a NEW object: the location was not allocated before the call (so it is no object any
+   earlier call, render or frame can hold), every object that existed keeps its contents, and the new object holds
+   exactly this call's entries, without a memoised key order *)
+Lemma map_params_fresh h l loc h' :
+  rt_map_params h l = Ok (VMap loc, h') ->
+  hget h loc = None
+  /\ (forall k o, hget h k = Some o -> hget h' k = Some o)
+  /\ exists items, hget h' loc = Some (OMap items []).
+Proof.
+  unfold rt_map_params. intros H.
+  destruct (params_group l []) as [gs| | |]; simpl in H; try discriminate.
+  destruct (params_alloc h gs) as [[items h1]| | |] eqn:E; simpl in H; try discriminate.
+  inversion H; subst. destruct (params_alloc_extends _ _ _ _ E) as [ext He]. subst h1.
+  unfold hget. repeat split.
+  - apply nth_error_None. rewrite app_length. lia.
+  - intros k o Hk. rewrite <- app_assoc. rewrite nth_error_app1; [exact Hk|].
+    apply nth_error_Some. rewrite Hk. discriminate.
+  - exists items. rewrite nth_error_app2 by lia. rewrite Nat.sub_diag. reflexivity.
+Qed.
+
+(* a call without attributes: an empty map of its own *)
+Lemma map_params_none h : rt_map_params h [] = Ok (VMap (length h), h ++ [OMap [] []]).
+Proof. reflexivity. Qed.
+
+(* two calls, one after the other (whatever happens to the heap in between, as long as it only grows or updates
+   in place, i.e. keeps its length or extends it): their attributes objects are different objects *)
+Lemma map_params_distinct h1 l1 loc1 h1' h2 l2 loc2 h2' :
+  rt_map_params h1 l1 = Ok (VMap loc1, h1') -> length h1' <= length h2 ->
+  rt_map_params h2 l2 = Ok (VMap loc2, h2') -> loc1 <> loc2.
+Proof.
+  intros A Hle C.
+  destruct (map_params_fresh _ _ _ _ A) as [_ [_ [it1 G1]]].
+  destruct (map_params_fresh _ _ _ _ C) as [N2 _].
+  unfold hget in *. apply nth_error_None in N2.
+  assert (loc1 < length h1') by (apply nth_error_Some; rewrite G1; discriminate). lia.
+Qed.
+
+(* non-vacuity: a body stores into the attributes object of its call (`$attributes.__assign`); the next call's
+   object is another one and empty *)
+Example ex_attrs_not_shared :
+  match rt_map_params [] [] with
+  | Ok (VMap l1, h1) =>
+    match rt_map_params (hset h1 l1 (OMap [(B "type", VGoStr (B "password"))] [])) [] with
+    | Ok (VMap l2, h2) => l1 <> l2 /\ hget h2 l2 = Some (OMap [] []) /\ hget h2 l1 = Some (OMap [(B "type", VGoStr (B "password"))] [])
+    | _ => False
+    end
+  | _ => False
+  end.
+Proof. vm_compute. repeat split. discriminate. Qed.
+
+(* ---- the lowering of a call site (Pug/Compile.v) ------------------------------------------------ *)
+From PV Require Import Js.Ast Pug.Ast Pug.Compile.
+
+(* the shape of what a call with block content compiles to: the calling frame binds a block NAMED AFTER THIS CALL
+   SITE (block_<mixin>_<counter>) and passes that name *)
+Definition call_site_shape (name bn : bytes) (ts : list tok) : Prop :=
+  exists t1 t2 args attrs,
+    ts = [TAct t1 false false (AcPipe ([], [[AIdent (B "__freeze"); AStr bn]]));
+          TAct t2 false false (AcTemplate (B "mixin_" ++ name) false
+                                 (Some ([], [[call (B "__op__array") [args; attrs; cmd1 (AStr bn)]]])))].
+
+(* a call whose block content is nothing but `block` is no exception: it gets a wrapper block of its own, whose
+   content is the placement of the caller's block; the caller's block NAME is not handed on *)
+Lemma pure_forward_gets_own_block funcs dbg f raw st name :
+  is_ident name = true ->
+  exists ts,
+    cnode funcs dbg (S (S (S f))) raw st (PMixinCall name [] [] [PMixinBlock])
+    = Some (ts, raw,
+            {| cs_mixins := cs_mixins st;
+               cs_blocks := cs_blocks st ++
+                 [[TText nl; TText nl;
+                   TAct (B "{{- define """ ++ (B "block_" ++ name ++ B "_" ++ show_nat (cs_counter st)) ++ B """ -}}") true true
+                        (AcDefine (B "block_" ++ name ++ B "_" ++ show_nat (cs_counter st))); TText nl;
+                   TAct (B "{{- template $block -}}") true true (AcTemplate (B "block") true None);
+                   TText nl; TAct (B "{{- end -}}") true true AcEnd]];
+               cs_counter := S (cs_counter st) |})
+    /\ call_site_shape name (B "block_" ++ name ++ B "_" ++ show_nat (cs_counter st)) ts.
+Proof.
+  intros Hid. eexists. split.
+  - cbn -[show_nat is_ident app]. rewrite Hid. cbn -[show_nat app]. reflexivity.
+  - unfold call_site_shape. do 4 eexists. reflexivity.
+Qed.
